@@ -53,6 +53,7 @@ thread_local! {
 }
 
 const NEUTRAL: &[&str] = &["あ", "x", "は", "円"];
+const KANJI_WORDS: &[&str] = &["四半期", "万人", "一般", "千葉", "十分"];
 
 fn numeral_dict(ctx: &Ctx, omit_key: bool) -> std::rc::Rc<Dict> {
     DICT.with(|g| {
@@ -67,6 +68,11 @@ fn numeral_dict(ctx: &Ctx, omit_key: bool) -> std::rc::Rc<Dict> {
             }
             for n in NEUTRAL {
                 system.push(Entry::simple(n, 1, 1, 100, &noun));
+            }
+            // ordinary words that begin with a kanji numeral and go on with other kanji (the shipped char.def classes
+            // the first character KANJINUMERIC KANJI, the rest KANJI): cheap enough to be chosen whenever they occur
+            for n in KANJI_WORDS {
+                system.push(Entry::simple(n, 1, 1, -3000, &noun));
             }
             // numeral words of two characters that declare their characters as split units: in modes A / B the joined
             // numeral must stay one token (the join happens on the C path, a joined token has no units)
@@ -156,7 +162,17 @@ fn num() -> BoxedStrategy<Num> {
             }
             Num::FracUnit { int, frac, small, large }
         });
-    prop_oneof![3 => plain, 3 => comma, 5 => units, 2 => frac_unit].boxed()
+    let comma_unit = (
+        nz_digits(1, 3),
+        vec((0u8..10, 0u8..10, 0u8..10).prop_map(|(a, b, c)| [a, b, c]), 1..4),
+        prop::option::of(1u32..=3),
+        prop::option::of(select(vec![4u32, 8, 12])),
+    )
+        .prop_map(|(first, groups, small, large)| {
+            let (small, large) = if small.is_none() && large.is_none() { (Some(3), None) } else { (small, large) };
+            Num::CommaUnit { first, groups, small, large }
+        });
+    prop_oneof![3 => plain, 3 => comma, 5 => units, 2 => frac_unit, 1 => comma_unit].boxed()
 }
 
 fn mutation() -> BoxedStrategy<Mutation> {
@@ -238,7 +254,7 @@ impl Property for C15 {
             3 => select(vec!["3.", "1,", "2千", "12", ".5", "千", "1,23", "5.5.", "万", "一.", "3,000,"]).prop_map(|s| s.to_string()),
             1 => "[0-9一二三十百千万億,.]{1,6}",
         ];
-        (num(), select(vec!["", "あ", "x", "は"]), select(vec!["", "あ", "円", "x"]), prop::bool::weighted(0.2), prop::option::weighted(0.35, mutation()), prop::option::weighted(0.3, (pre, select(vec!["は", "あ", "x", "円"]))), prop::bool::weighted(0.25))
+        (num(), select(vec!["", "あ", "x", "は"]), select(vec!["", "", "あ", "あ", "円", "円", "x", "x", "四半期", "万人", "一般", "千葉", "十分"]), prop::bool::weighted(0.2), prop::option::weighted(0.35, mutation()), prop::option::weighted(0.3, (pre, select(vec!["は", "あ", "x", "円"]))), prop::bool::weighted(0.25))
             .prop_map(|(num, prefix, suffix, fullwidth, mutation, preamble, omit_key)| Case { num, prefix: prefix.to_string(), suffix: suffix.to_string(), fullwidth, mutation, preamble: preamble.map(|(a, b)| format!("{}{}", a, b)), omit_key })
             .boxed()
     }
@@ -288,6 +304,9 @@ impl Property for C15 {
         if case.preamble.is_some() {
             rep.class("earlier numeral run in the same text");
         }
+        if KANJI_WORDS.contains(&case.suffix.as_str()) {
+            rep.class("followed by a word that begins with a kanji numeral");
+        }
         // the mode is drawn from the case (text length): the joined numeral is the same token in every mode
         // (a numeral that IS one of the two-character dictionary words is a single word with declared units, which
         // modes A / B split by design: mode C then)
@@ -330,6 +349,7 @@ impl Property for C15 {
                 Num::Comma { .. } => rep.class("separators"),
                 Num::Units { .. } => rep.class("units"),
                 Num::FracUnit { .. } => rep.class("fraction x unit"),
+                Num::CommaUnit { .. } => rep.class("separators x unit"),
             }
         } else {
             rep.nontrivial = true;
